@@ -133,8 +133,10 @@ def sc_big(B, K, N):
     lab[:K] = np.arange(K)  # every cluster non-empty
     X = cents[lab] + rs.normal(scale=0.01, size=(N, 2))
     m = km.KMeansMachine(K)
-    m.centroids_ = cents
+    m.means = cents  # the `means` alias of `centroids_`
+    o0 = np.array_equal(m.centroids_, cents) and np.array_equal(m.means, cents)
     o = Outcome()
+    o.claim("means-alias", bool(o0))
     o.equal("labels", m.predict(X), lab)
     o.equal("distances-shape", list(np.shape(m.transform(X))), [K, N])
     v, w = m.get_variances_and_weights_for_each_cluster(X)
